@@ -17,6 +17,7 @@ import (
 	"sync"
 	"sync/atomic"
 	"syscall"
+	"time"
 
 	"github.com/RoaringBitmap/roaring/v2"
 	index "github.com/blevesearch/bleve_index_api"
@@ -160,9 +161,29 @@ func pathExists(p string) bool {
 
 // run executes all commands, writing the transcript (each command line,
 // followed by an "r ..." observation line where the command yields one).
+// progress watchdog: a command that does not return (a leaked lock, a lost wake-up) must not
+// cost the whole time budget of the check: after 300 s without a finished command the transcript
+// ends with an observation saying so and the process exits.
+var lastProgress int64
+
+func (e *Exec) watchdog(out *bufio.Writer, cur *string) {
+	for {
+		time.Sleep(5 * time.Second)
+		if time.Now().Unix()-atomic.LoadInt64(&lastProgress) > 300 {
+			fmt.Fprintf(os.Stdout, "\n%s\nr HANG:no command finished for 300 s\n", *cur)
+			os.Exit(3)
+		}
+	}
+}
+
 func (e *Exec) run(cmds []*Cmd, out *bufio.Writer) {
+	cur := ""
+	atomic.StoreInt64(&lastProgress, time.Now().Unix())
+	go e.watchdog(out, &cur)
 	for i := 0; i < len(cmds); {
 		c := cmds[i]
+		cur = c.Raw
+		atomic.StoreInt64(&lastProgress, time.Now().Unix())
 		switch c.Op {
 		case "batch":
 			b, next, err := parseBatch(cmds, i)
@@ -514,7 +535,17 @@ func (e *Exec) doWriteTo(c *Cmd) string {
 		return "scripterror:notbase"
 	}
 	fw := &failWriter{limit: c.num("fail", -1)}
-	n, err := sb.WriteTo(fw)
+	var n int64
+	if bs := c.num("bufio", 0); bs > 0 {
+		// the caller's own buffered writer (of any size), flushed by the caller afterwards
+		bw := bufio.NewWriterSize(fw, bs)
+		n, err = sb.WriteTo(bw)
+		if err == nil {
+			err = bw.Flush()
+		}
+	} else {
+		n, err = sb.WriteTo(fw)
+	}
 	if err != nil {
 		return fmt.Sprintf("%s fail=%d full=%d", errKind(err), fw.limit, c.num("full", -1))
 	}
@@ -1096,10 +1127,16 @@ func (e *Exec) qStored(c *Cmd, sg segment.Segment) string {
 	var parts []string
 	calls := 0
 	hold := c.str("hold", "0") == "1"
+	nest := c.num("nest", -1)
 	corrupt := false
 	err := sg.VisitStoredFields(n, func(field string, typ byte, value []byte, pos []uint64) bool {
 		calls++
 		parts = append(parts, fmt.Sprintf("%s:%d:%s:%s", field, typ, hx(value), u64List(pos, ".")))
+		if nest >= 0 && calls == 1 {
+			// the visitor looks at another document of the same segment before it returns
+			_ = sg.VisitStoredFields(uint64(nest), func(string, byte, []byte, []uint64) bool { return true })
+			_, _ = sg.DocID(uint64(nest))
+		}
 		if hold {
 			snapV := append([]byte(nil), value...)
 			snapP := append([]uint64(nil), pos...)
